@@ -319,6 +319,12 @@ fn random_history(prop: &str, coin: &str, n_tx: usize, reuse: bool, rng: &mut Rn
                         let tx = create_tx(&mut hist, coin, &keys, 1, rng, ins, false);
                         hist.add(tx, true, coin);
                     }
+                } else if rng.chance(1, 8) && hist.all_txs.len() < 60 {
+                    // a thousand and more outputs over a handful of keys: runs of identical scripts with
+                    // different values
+                    let n = *rng.pick(&[1023usize, 1024, 1025, 1100, 2048, 4097]);
+                    let tx = create_tx(&mut hist, coin, &keys, n, rng, vec![], false);
+                    hist.add(tx, true, coin);
                 } else if rng.chance(1, 4) {
                     let n = rng.usize(257, 320);
                     let tx = create_tx(&mut hist, coin, &keys, n, rng, vec![], true);
@@ -430,6 +436,9 @@ fn probes(scn: &Scenario, m: &Model, st: &mut Stats) {
             if t.outputs.len() > 256 {
                 st.probe("tx_with_over_256_outputs");
             }
+            if t.outputs.len() >= 1024 && t.outputs.windows(2).any(|w| w[0].script == w[1].script && w[0].value != w[1].value) {
+                st.probe("wide_tx_with_adjacent_equal_scripts");
+            }
             if t.outputs.len() > 65_536 {
                 st.probe("tx_with_over_65536_outputs");
             }
@@ -468,7 +477,7 @@ impl Prop for C07 {
         small + if tier == Tier::Quick { 700 } else { 8000 }
     }
     fn required_probes(&self, _tier: Tier) -> Vec<&'static str> {
-        vec!["spend_in_creating_block", "duplicate_txid", "spend_unknown_outpoint", "tx_with_over_256_outputs", "spent_index_past_255", "zero_value_output", "txids_sharing_8_bytes", "known_output_spent_by_tx_without_outputs", "known_output_spent_after_null_outpoint_in_same_tx", "output_above_21m_coins"]
+        vec!["spend_in_creating_block", "duplicate_txid", "spend_unknown_outpoint", "tx_with_over_256_outputs", "spent_index_past_255", "zero_value_output", "txids_sharing_8_bytes", "known_output_spent_by_tx_without_outputs", "known_output_spent_after_null_outpoint_in_same_tx", "output_above_21m_coins", "wide_tx_with_adjacent_equal_scripts"]
     }
     fn explore(&self, item: u64, rng: &mut Rng, tier: Tier, h: &mut Harness) -> Result<(), String> {
         let maxk = if tier == Tier::Quick { 3 } else { 4 };
